@@ -47,3 +47,17 @@ INVARIANT EmitVerdict
 
 def validate_mech(traces, tag='mech'):
     return validate('Trace_MechModel', traces, MECH_CFG, tag)
+
+RS_CFG = '''CONSTANTS
+  Design = "thread"
+  NSub = 1
+  DrawsPerSub = 1
+  SeedArgs = {"int"}
+SPECIFICATION TSpec
+CHECK_DEADLOCK FALSE
+INVARIANT EmitVerdict
+'''
+
+
+def validate_streams(traces, tag='rs'):
+    return validate('Trace_RandomStreams', traces, RS_CFG, tag)
